@@ -10,6 +10,7 @@ import (
 	"sort"
 	"strconv"
 	"strings"
+	"time"
 
 	"github.com/dgrr/http2"
 	"github.com/valyala/fasthttp"
@@ -46,7 +47,8 @@ type handlerEvent struct {
 	snap *Snapshot
 	gate chan struct{}
 	name string
-	gor  string // logical goroutine name
+	gor  string        // logical goroutine name
+	at   time.Duration // fake time of the event
 }
 
 // laneState is the run-time state of a lane.
@@ -61,9 +63,10 @@ type laneState struct {
 	keepBlock bool
 	peerRST   bool // the peer itself reset the lane's stream
 	// sender-side flow control for this stream (peer → server)
-	sendWin  int64
-	opsSent  int
-	openedAt int // scheduler step at which the lane's stream was opened
+	sendWin   int64
+	opsSent   int
+	openedAt  int           // scheduler step at which the lane's stream was opened
+	openedNow time.Duration // fake time at which the lane\'s stream was opened
 }
 
 // PeerStream is what the peer has observed on one stream of the server's output.
@@ -81,6 +84,7 @@ type PeerStream struct {
 	RST        []uint32
 	AfterEnd   []string // frames seen after END_STREAM or after RST
 	FirstAt    int
+	RSTNow     time.Duration
 	DoneAt     int
 	// receive-side ledger (C06): bytes of DATA payload (incl. padding) received
 	RecvBytes int64
@@ -135,6 +139,7 @@ type SrvWorld struct {
 	Streams           map[uint32]*PeerStream
 	streamOrder       []uint32
 	EndedBeforeGoAway map[uint32]bool // streams on which the server's END_STREAM arrived before its first GOAWAY
+	GoAwayNow         time.Duration   // fake time at which the first GOAWAY arrived
 	GoAways           []*Frame
 	SettingsAcks      int
 	SettingsSeen      int
@@ -156,7 +161,8 @@ type SrvWorld struct {
 	Gauge    int
 	GaugeHWM int
 	Exits    map[int]int
-	EntrySeq []string // "enter rid" / "exit rid" in order with step numbers
+	EnterNow map[int]time.Duration // fake time of the first handler entry per request
+	EntrySeq []string              // "enter rid" / "exit rid" in order with step numbers
 
 	faultsDone map[int]bool
 	phase      int // 0 workload, 1 drain (no faults, all gates open eagerly), 2 teardown
@@ -293,7 +299,7 @@ func kindMask(names []string) (m [simrt.NKinds]bool) {
 func NewSrvWorld(sim *Sim, plan *SrvPlan) *SrvWorld {
 	w := &SrvWorld{sim: sim, plan: plan, fw: NewFrameWriter(), enc: NewRefEncoder(), log: &memLogger{},
 		served: make(chan error, 1), nextID: 1, Streams: map[uint32]*PeerStream{}, hev: make(chan handlerEvent, 4096),
-		Entries: map[int]int{}, Snaps: map[int]*Snapshot{}, Exits: map[int]int{}, faultsDone: map[int]bool{}, Probes: map[string]int{},
+		Entries: map[int]int{}, EnterNow: map[int]time.Duration{}, Snaps: map[int]*Snapshot{}, Exits: map[int]int{}, faultsDone: map[int]bool{}, Probes: map[string]int{},
 		srvInitWin: 65535, sendConnWin: 65535, srvSettings: map[uint16]uint32{}, srvMaxFrame: 16384}
 	sim.R.Mask = kindMask(plan.Mask)
 	sim.R.Pools.Policy = plan.PoolPol
@@ -304,6 +310,7 @@ func NewSrvWorld(sim *Sim, plan *SrvPlan) *SrvWorld {
 	}
 	w.c2s = NewDir("c2s", plan.Peer.LinkCap)
 	w.s2c = NewDir("s2c", plan.Peer.LinkCap)
+	w.s2c.MarkWrites = plan.Trail == "idle"
 	w.conn = &Conn{Name: "srv", R: w.c2s, W: w.s2c}
 	tbl := uint32(4096)
 	if plan.Peer.HeaderTableSize >= 0 {
@@ -449,7 +456,7 @@ func (w *SrvWorld) handler(ctx *fasthttp.RequestCtx) {
 	g := make(chan struct{}, 1)
 	name := "h" + strconv.Itoa(rid)
 	simrt.Own(ctx, name)
-	w.hev <- handlerEvent{kind: "enter", rid: rid, snap: snap, gate: g, name: name, gor: simrt.SelfName()}
+	w.hev <- handlerEvent{kind: "enter", rid: rid, snap: snap, gate: g, name: name, gor: simrt.SelfName(), at: w.sim.Now()}
 	if w.plan.GateMode != "open" {
 		<-g
 		simrt.UserYield("handler.gate")
@@ -495,6 +502,9 @@ func (w *SrvWorld) drainEvents() {
 			switch ev.kind {
 			case "enter":
 				w.Entries[ev.rid]++
+				if _, ok := w.EnterNow[ev.rid]; !ok {
+					w.EnterNow[ev.rid] = ev.at
+				}
 				if w.Snaps[ev.rid] == nil {
 					w.Snaps[ev.rid] = ev.snap
 				}
@@ -611,6 +621,10 @@ func (w *SrvWorld) onPeerFrame(f *Frame) {
 		}
 	case FGoAway:
 		if len(w.GoAways) == 0 {
+			w.GoAwayNow = w.sim.Now()
+			if t := w.s2c.WrittenAt(f.Off); !t.IsZero() {
+				w.GoAwayNow = t.Sub(w.sim.Start) // when the server wrote it, not when the peer got to read it
+			}
 			w.EndedBeforeGoAway = map[uint32]bool{}
 			for id, ps := range w.Streams {
 				if ps.EndStreams > 0 {
@@ -692,6 +706,9 @@ func (w *SrvWorld) onPeerFrame(f *Frame) {
 		}
 		ps.RST = append(ps.RST, f.Code)
 		ps.DoneAt = w.sim.Steps
+		if ps.RSTNow == 0 {
+			ps.RSTNow = w.sim.Now() + 1 // fake time of the first RST_STREAM (+1: zero means none)
+		}
 	}
 }
 
@@ -853,9 +870,9 @@ func (w *SrvWorld) laneEnabled(l *laneState) bool {
 					return false
 				}
 			}
-			// a stream the peer has reset keeps its concurrency slot until its handler returns (documented, C13):
-			// "everything before is finished" includes those handlers
-			if a.peerRST && w.Entries[a.idx] != w.Exits[a.idx] {
+			// a stream that was reset (by the peer, or by the server for a stream error) keeps its concurrency slot until
+			// its handler returns (documented, C13): "everything before is finished" includes those handlers
+			if ps := w.Streams[a.id]; (a.peerRST || (a.id != 0 && ps != nil && len(ps.RST) > 0)) && w.Entries[a.idx] != w.Exits[a.idx] {
 				return false
 			}
 		}
@@ -939,6 +956,7 @@ func (w *SrvWorld) laneSend(l *laneState) {
 		}
 		l.id = w.nextID
 		l.openedAt = w.sim.Steps
+		l.openedNow = w.sim.Now()
 		w.nextID += 2
 		l.sendWin = w.srvInitWin
 		if ps := w.Streams[l.id]; ps != nil {
